@@ -463,7 +463,8 @@ pub mod rewrite {
     module_reference: &ModuleReference,
   ) -> Option<String> {
     let module = state.parsed_modules.get(module_reference)?;
-    let errors = state.errors.get(module_reference).unwrap();
+    // A module that was never rechecked has no entry in the error map.
+    let errors = state.get_errors(module_reference);
     if errors.iter().any(|e| e.is_syntax_error()) {
       None
     } else {
